@@ -164,6 +164,18 @@ func getCurrentVersion(goVersion, patchesVer string) string {
 
 const versionExt = ".version"
 
+// versionStamp returns the expected contents of the version file for the linker
+// binary currently at linkerPath. Besides the Go and patch versions it records
+// the size of the binary, like the build cache does for its entries, so that a
+// truncated or emptied binary is rebuilt rather than trusted.
+func versionStamp(linkerPath, goVersion, patchesVer string) (string, error) {
+	stat, err := os.Stat(linkerPath)
+	if err != nil {
+		return "", err
+	}
+	return getCurrentVersion(goVersion, patchesVer) + fmt.Sprintf("size %d\n", stat.Size()), nil
+}
+
 func checkVersion(linkerPath, goVersion, patchesVer string) (bool, error) {
 	versionPath := linkerPath + versionExt
 	version, err := os.ReadFile(versionPath)
@@ -174,12 +186,23 @@ func checkVersion(linkerPath, goVersion, patchesVer string) (bool, error) {
 		return false, err
 	}
 
-	return string(version) == getCurrentVersion(goVersion, patchesVer), nil
+	want, err := versionStamp(linkerPath, goVersion, patchesVer)
+	if os.IsNotExist(err) {
+		return false, nil // no linker binary to vouch for
+	}
+	if err != nil {
+		return false, err
+	}
+	return string(version) == want, nil
 }
 
 func writeVersion(linkerPath, goVersion, patchesVer string) error {
 	versionPath := linkerPath + versionExt
-	return os.WriteFile(versionPath, []byte(getCurrentVersion(goVersion, patchesVer)), 0o777)
+	stamp, err := versionStamp(linkerPath, goVersion, patchesVer)
+	if err != nil {
+		return err
+	}
+	return os.WriteFile(versionPath, []byte(stamp), 0o777)
 }
 
 func buildLinker(goRoot, workingDir string, overlay map[string]string, outputLinkPath string) error {
